@@ -214,8 +214,8 @@ def generate(tier, seed):
 
 def search(tier, seed):
     rnd = random.Random(seed * 104729 + 11)
-    for _ in range(120):
-        yield from cross(rand_scenario(rnd))
+    for _ in range(60):
+        yield from cross(rand_scenario(rnd), light=True)
 
 
 # ----------------------------------------------------------------------------- plan derived from the operations (harness side)
